@@ -58,6 +58,8 @@ Cfgs == {[x |-> i, uc |-> uc, pc |-> pc] :
 Schema(c) ==
     LET X == SlotTypes[c.x] IN
     ("A" :> DAlias("nsb", Str13, "")) @@
+    \* an alias of the root of a subtype tree: a value declared through it still carries its subtype tag
+    ("Pa" :> DAlias("nsa", TRef("P"), "")) @@
     ("K" :> DUnion("nsb", "", TRUE, <<Tag("red", TVoid), Tag("green", TVoid)>>)) @@
     ("L" :> DStruct("nsb", "", <<Fld("l1", I32b)>>, <<>>, FALSE)) @@
     ("E" :> DStruct("nsa", "", <<Fld("e1", TNull(TStr(Unset, Unset, ""))),
@@ -72,7 +74,8 @@ Schema(c) ==
     ("M" :> DStruct("nsa", "L", <<Fld("m1", TNull(TBool))>>, <<>>, FALSE)) @@
     ("H" :> DStruct("nsa", "", <<Fld("h1", TRef("M")), Fld("h2", TNull(TRef("Q"))),
                                  Fld("h3", TNull(TList(TRef("M"), Unset, 1))),
-                                 FldD("h4", TRef("K"), VUnion("K", "green", VNone))>>, <<>>, FALSE)) @@
+                                 FldD("h4", TRef("K"), VUnion("K", "green", VNone)),
+                                 Fld("h5", TNull(TRef("Pa")))>>, <<>>, FALSE)) @@
     ("U" :> DUnion("nsa", "", c.uc,
                    <<Tag("tv", TVoid), Tag("tn", TNull(TRef("S"))), Tag("tp", X),
                      Tag("ts", TRef("C")), Tag("tu", TRef("K")), Tag("tt", TRef("P")),
@@ -83,12 +86,13 @@ Schema(c) ==
                      Tag("tuo", TNull(TRef("K"))), Tag("tm", TMap(I32b)),
                      Tag("tlo", TNull(TList(I32b, 1, 2))), Tag("ta", TRef("A")), Tag("th", TRef("H")),
                      \* a tag named like a field of its (flattened) struct member: C has a field g1 that encodes as an object
-                     Tag("g1", TRef("C"))>>)) @@
+                     Tag("g1", TRef("C")),
+                     Tag("tpa", TRef("Pa"))>>)) @@
     ("V" :> DUnion("nsa", "U", c.uc, <<Tag("tw", TNull(TRef("A"))), Tag("tx", TVoid)>>)) @@
     \* a third level: only the root of a chain of open unions owns the catch-all
     ("W" :> DUnion("nsa", "V", c.uc, <<Tag("ty", TVoid), Tag("tz", TRef("L"))>>))
 
-UserRoots == {"A", "K", "L", "E", "S", "C", "P", "U", "V", "W", "H", "M", "Q"}
+UserRoots == {"A", "K", "L", "E", "S", "C", "P", "U", "V", "W", "H", "M", "Q", "Pa"}
 Roots == {TRef(n) : n \in UserRoots}
          \cup {TList(TRef(n), 1, 2) : n \in {"S", "U", "P"}}
          \cup {TMap(TRef(n)) : n \in {"C", "V"}}
